@@ -221,12 +221,27 @@ Inductive op :=
 | RemoveAll (m : Z)
 | ReorderAll (m : Z) (order : list Z)        (* model.agents.shuffle/sort(inplace=True); outcome = new order *)
 | ReorderType (m c : Z) (order : list Z)     (* model.agents_by_type[c].shuffle/sort(inplace=True) *)
-| Activate (m : Z) (c : option Z) (shuf : option (list Z)) (s : list (Z * act)).
+| Activate (m : Z) (c : option Z) (shuf : option (list Z)) (s : list (Z * act))
                                              (* model.agents / agents_by_type[c] .do/.map/.shuffle_do *)
+(* Mutation of the model's own all-agents AgentSet through the AgentSet API.  These are NOT registry
+   operations (the class docstring warns against them): the code touches _all_agents only. *)
+| SetDiscard (m k : Z) (strict : bool)       (* model.agents.discard(agent) / .remove(agent) (strict: KeyError if absent) *)
+| SetSelect (m : Z) (keep : list Z).         (* model.agents.select(..., inplace=True); outcome = the members kept *)
 
 Definition OBS_NOOP : list Z := [-2].
 Definition OBS_ILLEGAL : list Z := [-3].
 Definition E_KEY : Z := 1.
+
+(* `keep` is a subsequence of `l` (what a filtering select may leave behind) *)
+Fixpoint is_subseq (keep l : list Z) : bool :=
+  match keep, l with
+  | [], _ => true
+  | _ :: _, [] => false
+  | x :: keep', y :: l' => if x =? y then is_subseq keep' l' else is_subseq keep l'
+  end.
+(* only _all_agents changes; the ghost flag is left alone (the order of what remains is kept) *)
+Definition with_all_only (ms : mstate) (l : list Z) : mstate :=
+  {| m_next := m_next ms; m_hard := m_hard ms; m_all := l; m_bt := m_bt ms; m_reord := m_reord ms |}.
 
 Definition with_all (ms : mstate) (l : list Z) : mstate :=
   {| m_next := m_next ms; m_hard := m_hard ms; m_all := l; m_bt := m_bt ms; m_reord := true |}.
@@ -309,6 +324,22 @@ Definition step_op (w : world) (o : op) : world * list Z :=
                   else (w, OBS_ILLEGAL)
               end
           end
+      end
+  | SetDiscard m k strict =>
+      match getm (w_models w) m with
+      | None => (w, OBS_NOOP)
+      | Some ms =>
+          if zmem k (m_all ms)
+          then (set_models w (setm (w_models w) m (with_all_only ms (zdel k (m_all ms)))), [0])
+          else (w, if strict then [-1; E_KEY] else [0])
+      end
+  | SetSelect m keep =>
+      match getm (w_models w) m with
+      | None => (w, OBS_NOOP)
+      | Some ms =>
+          if is_subseq keep (m_all ms)
+          then (set_models w (setm (w_models w) m (with_all_only ms keep)), [0])
+          else (w, OBS_ILLEGAL)
       end
   end.
 
